@@ -203,7 +203,7 @@ func genFillVal(r *rand.Rand, n *Node, pbad float64, names *nameGen) FillVal {
 			return FillVal{Tok: fmt.Sprintf("f32:%d", b), Slot: &Slot{Bits: b}}
 		}
 		b := genFloatBits(r, 8, bad)
-		if n.W == 4 && r.Intn(6) == 0 {
+		if n.W == 4 && r.Intn(3) == 0 {
 			b = f64Edge[r.Intn(len(f64Edge))] // around MaxFloat32 and the smallest subnormal
 		} else if n.W == 4 && !bad && r.Intn(4) > 0 {
 			b = math.Float64bits(float64(math.Float32frombits(uint32(genFloatBits(r, 4, false)))))
